@@ -18,13 +18,35 @@ theorem exceptMapM_ok {α β ε : Type} (f : α → Except ε β) (g : α → β
 /-- the path a key names (for keys the backend accepts) -/
 def pathOf (k : Bytes) : Path := (keyPath k).getD []
 
-/-- `delete_objects` comparable: admissible bucket that exists; the keys are distinct [else fs:delete-objects-duplicate-key],
-    canonical, and each names a file [else fs:delete-objects-omits-missing-keys, fs:delete-objects-in-missing-bucket] -/
+/-- `delete_objects` comparable: admissible bucket; when it exists the keys are distinct [else
+    fs:delete-objects-duplicate-key], canonical, and each names a file [else fs:delete-objects-omits-missing-keys]. A bucket
+    that does not exist is inside since 902249e, with any keys (`NoSuchBucket` on both sides, `InvalidArgument` when a key
+    is refused; before: fs:delete-objects-in-missing-bucket) -/
 def DeleteObjectsOk (s : State) (b : Bytes) (keys : List Bytes) : Prop :=
-  bucketOk b = true ∧ keys.Nodup ∧
+  bucketOk b = true ∧
   match s.tree b with
-  | none => False
-  | some t => ∀ k ∈ keys, CanonKey k ∧ (keyPath k).isSome = true ∧ isFile (t.node (pathOf k)) = true
+  | none => True
+  | some t => keys.Nodup ∧ ∀ k ∈ keys, CanonKey k ∧ (keyPath k).isSome = true ∧ isFile (t.node (pathOf k)) = true
+
+/-- resolving the keys of `delete_objects` under an admissible bucket: all of them, or `InvalidArgument` -/
+theorem resolveKeys (b : Bytes) (hbd : bucketDir b = some b) : ∀ keys : List Bytes,
+    keys.mapM (fun k => (objPath b k).map fun r => (r, k)) =
+      if keys.all keyOk = true then .ok (keys.map fun k => (((b, pathOf k), k) : (Bytes × Path) × Bytes))
+      else .error .InvalidArgument := by
+  intro keys
+  induction keys with
+  | nil => rfl
+  | cons k t ih =>
+    rw [List.mapM_cons, ih]
+    cases hkp : keyPath k with
+    | none =>
+      have hko : keyOk k = false := by rw [keyOk_iff_keyPath, hkp]; rfl
+      simp [objPath, hbd, hkp, hko, Except.map, bind, Except.bind]
+    | some p =>
+      have hko : keyOk k = true := by rw [keyOk_iff_keyPath, hkp]; rfl
+      by_cases hall : t.all keyOk = true
+      · simp [objPath, hbd, hkp, hko, hall, Except.map, bind, Except.bind, pure, Except.pure, pathOf]
+      · simp [objPath, hbd, hkp, hko, hall, Except.map, bind, Except.bind]
 
 theorem pathOf_spec {k : Bytes} (hc : CanonKey k) (hs : (keyPath k).isSome = true) :
     keyPath k = some (pathOf k) ∧ joinWith [slash] (pathOf k) = k ∧ PathOk (pathOf k) := by
@@ -149,13 +171,22 @@ theorem deleteObjects_refines (H : Hashes) (dl : Nat) {s : State} (hi : Inv s) {
     (step H dl s (.deleteObjects b keys)).2 = (StoreSpec.step H (abs s) (.deleteObjects b keys)).2 ∧
     abs (step H dl s (.deleteObjects b keys)).1 = (StoreSpec.step H (abs s) (.deleteObjects b keys)).1 ∧
     Inv (step H dl s (.deleteObjects b keys)).1 := by
-  obtain ⟨hbo, hnd, hall⟩ := hg
+  obtain ⟨hbo, hall⟩ := hg
   have hbd := bucketDir_of_bucketOk hbo
   cases ht : s.tree b with
-  | none => rw [ht] at hall; exact absurd hall (by simp)
+  | none =>
+    have habs : (abs s).bucket b = none := by rw [abs_bucket, ht]; rfl
+    have hh : alHas b s.buckets = false := by
+      unfold State.tree at ht; simp [alHas, ht]
+    by_cases hk : keys.all keyOk = true
+    · simp [step, StoreSpec.step, resolveKeys b hbd, hk, hbd, hh, hbo, habs, hi]
+    · simp [step, StoreSpec.step, resolveKeys b hbd, hk, hbo, hi]
   | some t =>
     rw [ht] at hall
     simp only at hall
+    obtain ⟨hnd, hall⟩ := hall
+    have hh : alHas b s.buckets = true := by
+      unfold State.tree at ht; simp [alHas, ht]
     have habs : (abs s).bucket b = some (absTree s b t) := by rw [abs_bucket, ht]; rfl
     have hmap : keys.mapM (fun k => (objPath b k).map fun r => (r, k)) =
         .ok (keys.map fun k => (((b, pathOf k), k) : (Bytes × Path) × Bytes)) := by
@@ -180,7 +211,7 @@ theorem deleteObjects_refines (H : Hashes) (dl : Nat) {s : State} (hi : Inv s) {
       intro k hk
       rw [keyOk_iff_keyPath]; exact (hall k hk).2.1
     have hstep : step H dl s (.deleteObjects b keys) = (s', .deleted keys) := by
-      simp only [step, hmap, hexist, hbd, List.map_map]
+      simp only [step, hmap, hexist, hbd, hh, List.map_map]
       have : ((fun r : (Bytes × Path) × Bytes => (r.1.2, r.2)) ∘ fun k => ((b, pathOf k), k)) =
           fun k => (pathOf k, k) := rfl
       rw [this, h1]
